@@ -84,6 +84,35 @@ mod int_array_freelist;
 /// on demand direct from the OS (via mmap).
 mod raw_memory_freelist;
 
+/// Verification hook (only with `--cfg mmtk_verif`): re-exports of the crate-private free lists so
+/// that the harness can drive the real `FreeList` implementations through the trait.
+#[cfg(mmtk_verif)]
+pub mod verif_freelist {
+    pub use super::freelist::{FreeList, FAILURE, MAX_HEADS, MAX_UNITS};
+    pub use super::int_array_freelist::IntArrayFreeList;
+    pub use super::raw_memory_freelist::RawMemoryFreeList;
+
+    /// `RawMemoryFreeList::new` with the strategy `Map64` uses.
+    pub fn new_raw_memory_freelist(
+        base: crate::util::Address,
+        limit: crate::util::Address,
+        pages_per_block: i32,
+        units: i32,
+        grain: i32,
+        heads: i32,
+    ) -> RawMemoryFreeList {
+        RawMemoryFreeList::new(
+            base,
+            limit,
+            pages_per_block,
+            units,
+            grain,
+            heads,
+            crate::util::os::MmapStrategy::RAW_MEMORY_FREELIST,
+        )
+    }
+}
+
 pub use self::address::Address;
 pub use self::address::ObjectReference;
 pub use self::opaque_pointer::*;
